@@ -4,10 +4,18 @@ E1: all non-decreasing request lists (with duplicates) up to a length bound over
 time lattice x t_max x policies x engines x space types; E2: all {iterate, sample} histories up to depth 6
 under each policy.  Oracle: mc/ref/sampler.py evaluated on the implementation's own step sequence
 (per-iteration run of the same script and seed).
+E3 (script-object history): a script goes through copy() / copy.deepcopy / trajectory.script and is THEN given new
+settings through the public setters; the contract is evaluated on the FINAL settings (default t_max = last requested
+time of the final list), differential against a script built directly with those settings.
+E4 (tiny interval): on_interval with intervals far below the step (2^-31 .. 2^-40, 1e-9, "1 ns"): every step holds a
+new multiple of the interval, so every step (event) is the first one at or after a multiple and must be recorded.
 """
+import copy
+import fractions
 import functools
 import itertools
 import json
+import math
 
 from mc import core, pool, models, eng
 from mc.ref import sampler
@@ -19,6 +27,12 @@ LATTICE = [k / 8.0 for k in range(11)]          # 0, 1/8, ..., 1.25
 TMAX = ["default", 0.0, 0.3, 0.5, 0.625, 2.0]
 INTERVALS = [0.125, 0.25, 0.375, 0.5, 0.7]
 MAX_ITER = 4000
+TINY_INTERVALS = [2.0 ** -31, 2.0 ** -33, 2.0 ** -40, 1e-9, "1 ns"]
+UNIT_S = {"s": 1.0, "ms": 1e-3, "ns": 1e-9, "min": 60.0, "h": 3600.0}
+# script-object history: the script every history starts from, the routes it goes through and the setter edits
+HIST_INIT = {"t_sample": [0, 0.5, 1.0], "dt": DT, "policy": "on_t_sample", "interval": 0.375}
+HIST_ROUTES = ["same", "copy", "deepcopy", "copy-copy", "traj"]
+HIST_ATTR = {"t_sample": "t_sample", "time_step": "dt", "sampling_policy": "policy", "sampling_interval": "interval", "t_max": "t_max"}
 
 
 def spec_for(gtype, variant=None):
@@ -120,15 +134,79 @@ def as_seconds(v):
     """numeric value in seconds of a request given as number or '<v> <unit>' string (ms, min, h, s)."""
     if isinstance(v, str):
         num, unit = v.split()
-        return float(num) * {"s": 1.0, "ms": 1e-3, "min": 60.0, "h": 3600.0}[unit]
+        return float(num) * UNIT_S[unit]
     return float(v)
 
 
 def req_seconds(ts):
     if isinstance(ts, dict):
-        f = {"s": 1.0, "ms": 1e-3, "min": 60.0, "h": 3600.0}[ts["unit"]]
+        f = UNIT_S[ts["unit"]]
         return [float(v) * f for v in ts["values"]]
     return [as_seconds(v) for v in ts]
+
+
+def effective(case):
+    """The settings a run is judged by.  For a script-object history: the initial settings overwritten, in order, by the
+    values given to the public setters (t_max "default" = last requested time of the FINAL list)."""
+    if "init" not in case:
+        return case
+    fin = dict(case["init"])
+    for attr, val in case["edits"]:
+        fin[HIST_ATTR[attr]] = val
+    eff = {k: v for k, v in case.items() if k not in ("init", "edits")}
+    eff.update(fin)
+    return eff
+
+
+def history_script(case):
+    """initial script -> route (same object / copy() / copy.deepcopy / copy of a copy / script of a finished
+    trajectory of the same engine) -> public setters, in the order of case["edits"]."""
+    c0 = {k: v for k, v in case.items() if k not in ("init", "edits")}
+    c0.update(case["init"])
+    s0 = mk_script(c0)
+    route = case["route"]
+    if route == "same":
+        s1 = s0
+    elif route == "copy":
+        s1 = s0.copy()
+    elif route == "deepcopy":
+        s1 = copy.deepcopy(s0)
+    elif route == "copy-copy":
+        s1 = s0.copy().copy()
+    elif route == "traj":
+        s1 = drive(eng.make_engine(case["engine"]), s0)[2].script
+    else:
+        raise ValueError(route)
+    for attr, val in case["edits"]:
+        setattr(s1, attr, val)
+    return s1
+
+
+def tiny_interval_contract(T, iv, t_max):
+    """on_interval for an interval that may be far below the step gaps (the multiples are not enumerated).
+    Step k >= 1 is 'the first step at or after a multiple' iff a multiple m*iv lies in ]T[k-1], T[k]]; step 0 serves
+    the multiple 0.  Power-of-two intervals: decided exactly (rational arithmetic).  Other intervals (1e-9, "1 ns":
+    the value that reaches the engine may differ by rounding, which shifts the 2^31-th multiple by several
+    intervals): a gap of at least two intervals certainly holds a multiple, a shorter gap is left open.
+    A step is only REQUIRED when such a multiple is not beyond t_max."""
+    exact_iv = math.frexp(iv)[0] == 0.5
+    F = fractions.Fraction
+    fiv = F(iv)
+    required, allowed = [{0}], {0}
+    for k in range(1, len(T)):
+        a, b = F(T[k - 1]), F(T[k])
+        bb = b if t_max is None else min(b, F(t_max))
+        if exact_iv:
+            may = math.floor(b / fiv) > math.floor(a / fiv)
+            must = bb > a and math.floor(bb / fiv) > math.floor(a / fiv)
+        else:
+            may = True
+            must = bb - a >= 2 * fiv
+        if may:
+            allowed.add(k)
+        if must:
+            required.append({k})
+    return required, allowed
 
 
 def map_records(T, X, t, d):
@@ -147,6 +225,7 @@ def map_records(T, X, t, d):
 
 def check_case(case):
     out = []
+    case0, case = case, effective(case)
     tag = "%s:%s" % (case["sub"], case["policy"])
     try:
         T, X, n_iter_base, comp_base = baseline(case)
@@ -184,7 +263,7 @@ def check_case(case):
                 out.append(("C09:schedule:iterations", "%d iterate() calls until completion, %d steps recorded" % (n_iter_base, K)))
     # ---- the run under test
     try:
-        script = mk_script(case)
+        script = history_script(case0) if "init" in case0 else mk_script(case)
         rets, obs, traj, complete = drive(eng.make_engine(case["engine"]), script, case.get("ops"))
         t, d = models.traj_arrays(traj)
     except Exception as e:
@@ -206,9 +285,14 @@ def check_case(case):
                     "record %d (t=%.17g, x=%r) is not the (time, state) of any step of the run; steps at %r" % (badj, t[badj], d[badj], T)))
         return out
     if "ops" not in case:
-        required, allowed = sampler.contract(T, reqs, case["policy"], interval=case.get("interval"), t_max=tmax_v, exact=exact)
+        if case["sub"] == "interval-tiny":
+            required, allowed = tiny_interval_contract(T, as_seconds(case["interval"]), tmax_v)
+        else:
+            required, allowed = sampler.contract(T, reqs, case["policy"], interval=case.get("interval"), t_max=tmax_v, exact=exact)
         for cls, msg in sampler.check_records(T, idx, required, allowed):
-            out.append(("C09:%s:%s" % (tag, cls), msg + " | requests %r t_max %r" % (reqs, tmax_v)))
+            out.append(("C09:%s:%s" % (tag, cls), msg + " | requests %r t_max %r" % (reqs, tmax_v)
+                        + (" interval %r" % (case["interval"],) if case["policy"] == "on_interval" else "")
+                        + (" | script history: %r -> %s -> setters %r" % (case0["init"], case0["route"], case0["edits"]) if "init" in case0 else "")))
         if idx and idx[0] == 0 and d[0] != spec_for(case["gtype"], case.get("variant"))["state"]:
             out.append(("C09:%s:t0-record" % tag, "record at t=0 is %r, initial state %r" % (d[0], spec_for(case["gtype"], case.get("variant"))["state"])))
     else:
@@ -260,6 +344,62 @@ def _lists(maxlen, lattice, minlen=0):
         for c in itertools.combinations_with_replacement(lattice, n):
             out.append(list(c))
     return out
+
+
+def gen_tiny(engines, gtypes, sd):
+    k = 0
+    for e in engines:
+        for g in gtypes:
+            for iv in TINY_INTERVALS:
+                for dt in (0.5, 0.25):
+                    for tm in (4.0, 2.7):
+                        k += 1
+                        yield {"sub": "interval-tiny", "policy": "on_interval", "engine": e, "gtype": g, "t_sample": [0],
+                               "t_max": tm, "interval": iv, "dt": dt, "seed": sd(e, k), "exact": True}
+
+
+def hist_edit_sets(tier, init_tmax):
+    """All combinations of at most one edit per property, applied in the listed order (thorough: also reversed)."""
+    ts_edits = [None, [0, 0.5, 1.0, 1.25, 1.75], [0, 0.5], [0.375], [1.5]]           # keep, longer, shorter, single, single later
+    dt_edits = [None, 0.125] + ([0.5] if tier != "quick" else [])
+    pol_edits = [[], [["sampling_policy", "on_iteration"]], [["sampling_policy", "no_sampling"]],
+                 [["sampling_policy", "on_interval"]], [["sampling_policy", "on_interval"], ["sampling_interval", 0.25]]]
+    tm_edits = [None, 0.625 if init_tmax == "default" else "default"]
+    out = []
+    for ts in ts_edits:
+        for dt in dt_edits:
+            for pe in pol_edits:
+                for tm in tm_edits:
+                    if tier == "quick" and tm is not None and (dt is not None or pe):
+                        continue      # quick: t_max is only switched together with a new request list (or alone)
+                    ed = []
+                    if ts is not None:
+                        ed.append(["t_sample", ts])
+                    if dt is not None:
+                        ed.append(["time_step", dt])
+                    ed.extend(pe)
+                    if tm is not None:
+                        ed.append(["t_max", tm])
+                    out.append(ed)
+                    if tier != "quick" and len(ed) >= 2:
+                        out.append(ed[::-1])
+    return out
+
+
+def gen_history(tier, engines, gtypes, sd):
+    k = 0
+    for e in engines:
+        for g in gtypes:
+            for tm0 in ("default", 0.625) + ((2.0,) if tier != "quick" else ()):
+                init = dict(HIST_INIT)
+                init["t_max"] = tm0
+                for route in HIST_ROUTES:
+                    for ed in hist_edit_sets(tier, tm0):
+                        k += 1
+                        c = {"sub": "history", "engine": e, "gtype": g, "seed": sd(e, k), "exact": True,
+                             "init": init, "route": route, "edits": ed}
+                        c["policy"] = effective(c)["policy"]      # informative only: the oracle recomputes it
+                        yield c
 
 
 def gen_cases(tier, seed0):
@@ -334,6 +474,14 @@ def gen_cases(tier, seed0):
                 k += 1
                 yield {"sub": "nondyadic", "policy": "on_t_sample", "engine": e, "gtype": "grid", "t_sample": lst,
                        "t_max": tm, "dt": 0.1, "seed": sd(e, k), "exact": False}
+    # tiny intervals: t/interval crosses 2^31 during the run (2^-31: at t = 1; 2^-33: at t = 1/4; 2^-40 and 1e-9 ...:
+    # at the first steps); every step holds a new multiple, so every step / event must be recorded
+    # (own case counters: the seeds of the sub-spaces enumerated after these two stay what they were)
+    for c in gen_tiny(engines, gtypes, sd):
+        yield c
+    # script-object history: copy() / deepcopy / trajectory.script, then the public setters, then the run
+    for c in gen_history(tier, engines, gtypes, sd):
+        yield c
     # explicit sample() calls: all {I,P} histories up to depth 6 (quick: 5)
     depth = 5 if tier == "quick" else 6
     for e in engines:
@@ -355,9 +503,13 @@ def _work(job):
     acc = core.Acc()
     for case in _CASES[lo:hi]:
         res = check_case(case)
-        nt = 1 if (len(req_seconds(case["t_sample"])) >= 1 or "ops" in case) else 0
-        acc.add(states=1, transitions=1 + len(case.get("ops", "")), traces=1, evaluations=1, nontrivial=nt)
+        nt = 1 if (len(req_seconds(effective(case)["t_sample"])) >= 1 or "ops" in case) else 0
+        acc.add(states=1, transitions=1 + len(case.get("ops", "")) + len(case.get("edits", [])) + (1 if case.get("route", "same") != "same" else 0),
+                traces=1, evaluations=1, nontrivial=nt)
         acc.count("cases:" + case["sub"])
+        if case["sub"] == "history" and case["init"]["t_max"] == "default" and case["route"] != "same" \
+                and any(a == "t_sample" for a, _ in case["edits"]) and not any(a == "t_max" for a, _ in case["edits"]):
+            acc.count("history:default-t_max-script-duplicated-then-given-new-times")
         for key, what in res:
             acc.violation(key, what, case)
     if lo == 0:
@@ -378,18 +530,32 @@ def run(ctx):
             continue
         if isinstance(r, pool.Crash):
             c = _CASES[job[0]]
-            ctx.violation("C09:%s:%s:engine-%s%s" % (c["sub"], c["policy"], r.kind, ":empty-request-list" if not req_seconds(c["t_sample"]) else ""),
+            ctx.violation("C09:%s:%s:engine-%s%s" % (c["sub"], c["policy"], r.kind, ":empty-request-list" if not req_seconds(effective(c)["t_sample"]) else ""),
                           r.detail, c)
             done += 1
             continue
         core.merge(ctx, r)
         done += job[1] - job[0]
+    per_sub = {}
+    for c in _CASES:
+        per_sub[c["sub"]] = per_sub.get(c["sub"], 0) + 1
+    n_tiny, n_hist = per_sub.get("interval-tiny", 0), per_sub.get("history", 0)
+    all_done = done == len(_CASES)
+    ctx.subspace("tiny interval: on_interval with interval in {2^-31, 2^-33, 2^-40, 1e-9, '1 ns'} x dt {0.5, 0.25} x t_max {4, 2.7} "
+                 "x 3 engines x {grid,graph}: t/interval crosses 2^31 during the run, every step / event holds a new multiple",
+                 n_tiny, n_tiny if all_done else 0, exhaustive=all_done)
+    ctx.subspace("script-object history: script (t_sample [0,.5,1], t_max default / explicit) x route {same object, copy(), "
+                 "copy.deepcopy, copy of copy, trajectory.script of a finished run} x all combinations of at most one setter edit per "
+                 "property (t_sample longer/shorter/single, time_step, sampling_policy (+ sampling_interval), t_max) x 3 engines x "
+                 "{grid,graph}; judged on the final settings against a directly built script",
+                 n_hist, n_hist if all_done else 0, exhaustive=all_done)
     nl = len(_lists(3 if ctx.tier == "quick" else 4, LATTICE, 0))
     ctx.subspace("all %d non-decreasing request lists (length 0..%d) over the lattice {0,1/8,..,5/4} x 6 t_max values x 3 engines "
                  "x {grid,graph}; 5 intervals x 5 t_max; on_iteration / no_sampling; explicit quantities in ms/min/h; dt=0.1 "
                  "near-tie pass; all {iterate,sample} histories to depth %d x 4 policies x 3 engines"
                  % (nl, 3 if ctx.tier == "quick" else 4, 5 if ctx.tier == "quick" else 6),
-                 len(_CASES), done, exhaustive=(done == len(_CASES)))
+                 len(_CASES) - n_tiny - n_hist, max(0, done - n_tiny - n_hist) if not all_done else len(_CASES) - n_tiny - n_hist,
+                 exhaustive=all_done)
     ctx.rule("one case per (engine, space type, policy, request list / interval / op history, t_max, seed); non-trivial = "
              "at least one request or an explicit-call history; every recorded sample is mapped onto the step sequence of "
              "the per-iteration run and compared with the required/allowed sets of the reference contract")
